@@ -6,7 +6,7 @@
    [srv] is the API server, [lst] the lister the controller reads (informer lag). *)
 From stdpp Require Import gmap.
 From Coq Require Import ZArith List.
-From V Require Import C13.Model C13.Laws C13.Lemmas.
+From V Require Import C13.Model C13.Laws C13.Lemmas C13.PreFix.
 Import ListNotations.
 Open Scope Z_scope.
 
@@ -39,20 +39,14 @@ Theorem C13_close_yields_closing_when_nonempty : forall s0 h i r v, let s := run
 Proof. exact close_result_hist. Qed.
 Print Assumptions C13_close_yields_closing_when_nonempty.
 
-(* Closed is entered only with an empty PodGroup index; the only other way is a
-   re-assertion from a lister that still shows Closed while the server does not *)
+(* Closed is entered only with an empty PodGroup index — at FULL strength: any lister
+   view, however stale (holds since the repair 5018129 of syncQueue; the witness that
+   refuted it on the previous code is C13_prefix_closed_with_podgroups_refuted below) *)
 Theorem C13_closed_entered_only_when_empty : forall s0 h e q a, let s := run s0 h in
   sst (srv s) q = Some a -> a <> SClosed -> sst (srv (step s e).1) q = Some SClosed ->
-  pgs_of (idx s) q = [] \/ (sst (lst s) q = Some SClosed /\ lst s !! q <> srv s !! q).
+  pgs_of (idx s) q = [].
 Proof. exact closed_only_when_empty_hist. Qed.
 Print Assumptions C13_closed_entered_only_when_empty.
-
-Theorem C13_closed_entered_only_when_empty_fresh : forall s0 h e q a, let s := run s0 h in
-  lst s !! q = srv s !! q ->
-  sst (srv s) q = Some a -> a <> SClosed -> sst (srv (step s e).1) q = Some SClosed ->
-  pgs_of (idx s) q = [].
-Proof. exact closed_only_when_empty_fresh_hist. Qed.
-Print Assumptions C13_closed_entered_only_when_empty_fresh.
 
 (* closing a parent marks every child the lister shows as not closed with
    closed-by-parent=true and enqueues a Close request for it *)
@@ -99,6 +93,75 @@ Theorem C13_child_not_opened_under_closed_parent : forall s0 h i r v, let s := r
 Proof. exact no_open_under_closed_parent_hist. Qed.
 Print Assumptions C13_child_not_opened_under_closed_parent.
 
+(* ---------- informer lag: full-strength statements, their witnesses, the repairs ---------- *)
+
+(* KNOWN FINDING C13-stale-lister-sync-overwrites-open (race A, not repaired): without
+   the freshness hypothesis C13_sync_never_opens_or_closes is FALSE — a Sync computed
+   from a lister that still shows Closing writes Closed over the server's Open *)
+Theorem C13_sync_never_opens_or_closes_full_refuted :
+  ~ (forall s e q a b,
+       sst (srv s) q = Some a -> sst (srv (step s e).1) q = Some b -> a <> b ->
+       exists r v, proc_of s e = Some (r, v) /\ r_q r = q /\
+         (r_act r = AOpen \/ r_act r = AClose \/ (a = SEmpty /\ b = SOpen) \/ (a = SClosing /\ b = SClosed))).
+Proof. exact sync_moves_full_refuted. Qed.
+Print Assumptions C13_sync_never_opens_or_closes_full_refuted.
+
+(* race B (C13-stale-lister-closed-with-podgroups): refuted on the code before the
+   repair 5018129; on the repaired code C13_closed_entered_only_when_empty holds at
+   full strength (above) and the race history leaves the queue Open *)
+Theorem C13_prefix_closed_with_podgroups_refuted :
+  ~ (forall s e q a,
+       sst (srv s) q = Some a -> a <> SClosed -> sst (srv (step0 s e).1) q = Some SClosed ->
+       pgs_of (idx s) q = []).
+Proof. exact prefix_closed_with_podgroups_refuted. Qed.
+Print Assumptions C13_prefix_closed_with_podgroups_refuted.
+
+Example C13_raceB_repaired :
+  sst (srv (run raceB_init (raceB_history ++ [EProc 0]))) q2 = Some SOpen.
+Proof. exact raceB_repaired. Qed.
+
+(* race C (C13-marked-child-not-reopened): with a lagging lister the re-open step itself
+   cannot see the marker (step-level full-strength form is false, before and after the
+   repair) ... *)
+Theorem C13_reopen_server_marked_children_refuted :
+  ~ (forall s i r v,
+       nth_error (wq s) i = Some r -> lst s !! r_q r = Some v -> r_act r = AOpen ->
+       is_closedish (q_state v) = true -> (proc s i).2 = OOk ->
+       forall c co, srv s !! c = Some co -> q_parent co = Some (r_q r) -> cbp_of (q_ann co) = Some true ->
+       In (mkReq c AOpen EvNone 0) (wq (proc s i).1)).
+Proof. exact reopen_server_marked_children_refuted. Qed.
+Print Assumptions C13_reopen_server_marked_children_refuted.
+
+(* ... before the repair b628b4b the child then stayed closed for ever (lister caught up,
+   nothing pending, child Closed + marked under an Open parent) ... *)
+Theorem C13_prefix_marked_child_not_reopened_refuted :
+  exists h, let s := run0 raceC_init h in
+    caught_up s = true /\ law_no_stuck_child s = false /\
+    sst (srv s) q2 = Some SOpen /\ sst (srv s) q3 = Some SClosed /\ scbp (srv s) q3 = Some true.
+Proof. exact prefix_marked_child_not_reopened_refuted. Qed.
+Print Assumptions C13_prefix_marked_child_not_reopened_refuted.
+
+(* ... since the repair, for EVERY state: the delivery of a closed child whose marker the
+   lister had not seen enqueues a Sync, and processing that Sync under an Open parent
+   enqueues the child's Open request *)
+Theorem C13_marked_child_heals : forall s c co lo p po,
+  srv s !! c = Some co -> lst s !! c = Some lo ->
+  cbp_of (q_ann co) = Some true -> cbp_of (q_ann lo) <> Some true ->
+  is_closedish (q_state co) = true -> q_parent co = Some p -> c <> root -> p <> c ->
+  lst s !! p = Some po -> q_state po = SOpen ->
+  let s1 := (step s (ELSync c)).1 in
+  wq s1 = wq s ++ [sync_req c] /\
+  (proc s1 (length (wq s))).2 = OOk /\
+  In (mkReq c AOpen EvNone 0) (wq (proc s1 (length (wq s))).1).
+Proof. exact marked_child_heals. Qed.
+Print Assumptions C13_marked_child_heals.
+
+Example C13_raceC_repaired :
+  let s := run raceC_init raceC_full in
+  caught_up s = true /\ law_no_stuck_child s = true /\
+  sst (srv s) q2 = Some SOpen /\ sst (srv s) q3 = Some SOpen /\ scbp (srv s) q3 = Some false.
+Proof. exact raceC_repaired. Qed.
+
 (* the extracted law checkers accept every step of the model *)
 Theorem C13_laws_accept_model : forall s e,
   law_only_by_request s e (step s e).1 = true /\
@@ -113,10 +176,10 @@ Print Assumptions C13_laws_accept_model.
    deleted -> Closed, re-open -> marked child re-opened, hand-closed child stays closed *)
 Example C13_nonvacuous :
   root_okP ex_state /\
-  sst (srv (run ex_state (firstn 2 ex_history))) 2 = Some SClosing /\
-  scbp (srv (run ex_state (firstn 2 ex_history))) 3 = Some true /\
-  sst (srv (run ex_state (firstn 6 ex_history))) 3 = Some SClosed /\
-  sst (srv (run ex_state (firstn 9 ex_history))) 2 = Some SClosed /\
+  (let s := run ex_state ex_phase1 in
+   sst (srv s) 2 = Some SClosing /\ sst (srv s) 3 = Some SClosed /\ scbp (srv s) 3 = Some true /\
+   scbp (srv s) 4 = None /\ wq s = []) /\
+  sst (srv (run ex_state ex_phase2)) 2 = Some SClosed /\
   let s := run ex_state ex_history in
   sst (srv s) 2 = Some SOpen /\ sst (srv s) 3 = Some SOpen /\ sst (srv s) 4 = Some SClosed /\
   scbp (srv s) 3 = Some false /\ wq s = [].
